@@ -24,7 +24,7 @@ var c17Hooks = []string{"Init", "ParseDidStart", "ParseFinish", "ValidationDidSt
 	"ResolveFieldDidStart", "ResolveFieldFinish", "HasResult", "GetResult"}
 
 type ExtSpec struct {
-	Name      string            `json:"name"`
+	Name string `json:"name"`
 	// Policy: hook → "" (ok) | panic_err | panic_str | panic_int | panic_struct, optionally "@<path>":
 	// the resolve hooks then panic only for the field at that response path
 	Policy    map[string]string `json:"policy,omitempty"`
